@@ -37,7 +37,12 @@ func errClass(compileErr string) string {
 
 // judgeC01 applies the C01 oracle to units that went through generate+compile(+probe).
 func judgeC01(c *Ctx, units []*probe.Unit) {
+	pc := NewPairCoverage()
+	defer func() { c.Set("pairwise_coverage", pc.Report()) }()
 	for _, u := range units {
+		if u.Accepted && u.Cfg != nil {
+			pc.Add(Features(u.Cfg, len(u.Files), u.Stub))
+		}
 		mode := "normal"
 		if u.Stub {
 			mode = "stub"
